@@ -16,9 +16,9 @@ use crate::ring_like::digest;
 #[cfg(feature = "pem")]
 use crate::ENCODE_CONFIG;
 use crate::{
-	check_ia5, check_time_encodable, oid, write_distinguished_name, write_dt_utc_or_generalized,
-	write_x509_authority_key_identifier, write_x509_extension, DistinguishedName, Error, Issuer,
-	KeyIdMethod, KeyPair, KeyUsagePurpose, SanType, SerialNumber,
+	check_ia5, check_oid, check_time_encodable, oid, write_distinguished_name,
+	write_dt_utc_or_generalized, write_x509_authority_key_identifier, write_x509_extension,
+	DistinguishedName, Error, Issuer, KeyIdMethod, KeyPair, KeyUsagePurpose, SanType, SerialNumber,
 };
 
 /// An issued certificate together with the parameters used to generate it.
@@ -435,6 +435,32 @@ impl CertificateParams {
 		Ok(result)
 	}
 
+	/// Checks the object identifiers that callers can set freely, so that writing them
+	/// later on can't fail.
+	fn check_oids(&self) -> Result<(), Error> {
+		self.distinguished_name.check_oids()?;
+		for ext in &self.custom_extensions {
+			check_oid(&ext.oid)?;
+		}
+		for usage in &self.extended_key_usages {
+			check_oid(usage.oid())?;
+		}
+		for san in &self.subject_alt_names {
+			if let SanType::OtherName((oid, _)) = san {
+				check_oid(oid)?;
+			}
+		}
+		if let Some(name_constraints) = &self.name_constraints {
+			let subtrees = name_constraints.permitted_subtrees.iter();
+			for subtree in subtrees.chain(&name_constraints.excluded_subtrees) {
+				if let GeneralSubtree::DirectoryName(name) = subtree {
+					name.check_oids()?;
+				}
+			}
+		}
+		Ok(())
+	}
+
 	/// Write a CSR extension request attribute as defined in [RFC 2985].
 	///
 	/// [RFC 2985]: <https://datatracker.ietf.org/doc/html/rfc2985>
@@ -603,6 +629,10 @@ impl CertificateParams {
 		{
 			return Err(Error::UnsupportedInCsr);
 		}
+		self.check_oids()?;
+		for attr in &attrs {
+			check_oid(attr.oid)?;
+		}
 
 		// Whether or not to write an extension request attribute
 		let write_extension_request = !key_usages.is_empty()
@@ -648,6 +678,8 @@ impl CertificateParams {
 		pub_key: &K,
 		issuer: Issuer<'_>,
 	) -> Result<CertificateDer<'static>, Error> {
+		self.check_oids()?;
+		issuer.distinguished_name.check_oids()?;
 		check_time_encodable(self.not_before)?;
 		check_time_encodable(self.not_after)?;
 		// These are plain `String`s that get written as `IA5String`s
